@@ -142,6 +142,8 @@ DERIVE2 = ["union", "isect", "isectbu"]
 def gen_ta_history(rng, nsteps, queries=True):
     live = set()
     size = {}
+    fam = {}        # handles of one family may share rule storage (copies, assignments, results that keep the table)
+    nfam = [0]
     steps = []
     for _ in range(nsteps):
         dead = [h for h in range(NH) if h not in live]
@@ -151,6 +153,8 @@ def gen_ta_history(rng, nsteps, queries=True):
             steps.append(["new", h])
             live.add(h)
             size[h] = 0
+            nfam[0] += 1
+            fam[h] = nfam[0]
             continue
         h = rng.choice(sorted(live))
         if r < 0.38:
@@ -170,16 +174,19 @@ def gen_ta_history(rng, nsteps, queries=True):
             steps.append(["copyctor", d, h, rng.random() < 0.85, rng.random() < 0.85])
             live.add(d)
             size[d] = size[h]
+            fam[d] = fam.get(h)
         elif r < 0.74:
             g = rng.choice(sorted(live))
             steps.append(["assign", h, g])
             size[h] = size[g]
+            fam[h] = fam.get(g)
         elif r < 0.78 and dead:
             d = rng.choice(dead)
             steps.append(["movector", d, h])
             live.add(d)
             live.discard(h)
             size[d] = size[h]
+            fam[d] = fam.get(h)
         elif r < 0.81 and len(live) > 1:
             g = rng.choice(sorted(live - {h}))
             steps.append(["moveassign", h, g])
@@ -201,6 +208,7 @@ def gen_ta_history(rng, nsteps, queries=True):
             if rng.random() < 0.55:
                 steps.append(["derive", d, rng.choice(DERIVE1), h])
                 size[d] = size[h]
+                fam[d] = fam.get(h)
             else:
                 g = rng.choice(sorted(live))
                 if size[g] > 9:
@@ -211,13 +219,42 @@ def gen_ta_history(rng, nsteps, queries=True):
         elif queries and size[h] <= 14:
             if rng.random() < 0.7:
                 g = rng.choice(sorted(live))
+                kin = [x for x in sorted(live) if x != h and fam.get(x) == fam.get(h)]
+                if kin and rng.random() < 0.6:
+                    g = rng.choice(kin)        # operands that may share storage but differ in value (final states, later rules)
                 if size[g] <= 14:
                     steps.append(["query", "incl", h, g, rng.randrange(8)])
+                    if rng.random() < 0.5:
+                        steps.append(["query", "incl", g, h, rng.randrange(8)])
             elif rng.random() < 0.5:
                 steps.append(["query", "empty", h])
             else:
                 steps.append(["query", "simdown", h])
     return {"op": "hist", "kind": "ta", "sym": "names", "steps": steps}
+
+
+def ta_sharing_opening(rng):
+    """scripted openings: two or three handles that SHARE rule storage (copy, assignment, a trimming result that removed nothing) while
+    differing in value only through their final states, then queries / assignments between them - followed by a random continuation"""
+    rules = rng.sample(TA_RULES, rng.randint(2, 5))
+    steps = [["new", 0]] + [["add", 0, r, False] for r in rules] + [["final", 0, rng.randrange(3)]]
+    kind = rng.randrange(4)
+    if kind == 0:
+        steps += [["copyctor", 1, 0, True, True], ["final", rng.choice([0, 1]), rng.randrange(3)]]
+    elif kind == 1:
+        steps += [["derive", 1, rng.choice(["unreach", "useless"]), 0], ["final", rng.choice([0, 1]), rng.randrange(3)]]
+    elif kind == 2:
+        steps += [["new", 1], ["assign", 1, 0], ["erasefinal", rng.choice([0, 1])], ["final", rng.choice([0, 1]), rng.randrange(3)]]
+    else:
+        steps += [["copyctor", 1, 0, True, True], ["final", 0, rng.randrange(3)], ["final", 1, rng.randrange(3)], ["assign", 1, 0],
+                  ["final", 0, rng.randrange(3)], ["assign", 1, 0]]
+    for _ in range(rng.randint(2, 4)):
+        a, b = rng.choice([(0, 1), (1, 0)])
+        steps.append(["query", "incl", a, b, rng.randrange(8)])
+    if rng.random() < 0.5:
+        steps += [["copyctor", 2, 1, True, True], ["finals", 2, sorted(rng.sample([0, 1, 2], rng.randint(1, 2)))], ["query", "incl", 2, 0, rng.randrange(8)],
+                  ["query", "incl", 0, 2, rng.randrange(8)], ["query", "empty", 2]]
+    return steps
 
 
 RAW_RULES = [[0, [], 0], [0, [], 1], [0, [0], 1], [0, [1, 1], 2], [1, [], 2], [1, [2], 2], [1, [0, 1], 0], [2, [3], 3],
@@ -347,6 +384,42 @@ def gen_fa_history(rng, nsteps):
     return {"op": "hist", "kind": "fa", "steps": steps}
 
 
+def continuation(rng, live0, nsteps):
+    """a random continuation from a state in which exactly the handles live0 are live (sizes unknown but small)"""
+    tail = gen_ta_history(rng, nsteps + 12)["steps"]
+    live = set(live0)
+    out = []
+    for s in tail:
+        op = s[0]
+        tgt = s[1] if isinstance(s[1], int) else None
+        srcs = [x for x in s[2:] if isinstance(x, int) and not isinstance(x, bool)] if op in ("copyctor", "assign", "movector", "moveassign", "reindexinto", "copytrans") else \
+               ([s[3]] + ([s[4]] if len(s) > 4 else []) if op == "derive" else ([s[2]] + ([s[3]] if s[1] == "incl" else []) if op == "query" else []))
+        if op in ("reindexinto",):
+            srcs = [s[2]]
+        if op == "copytrans":
+            srcs = [s[2]]
+        if any(x not in live for x in srcs):
+            continue
+        if op in ("new", "copyctor", "movector", "derive"):
+            if tgt in live:
+                continue
+        elif op != "query" and tgt not in live:
+            continue
+        if op in ("movector", "moveassign") and (srcs[0] == tgt):
+            continue
+        out.append(s)
+        if op in ("new", "copyctor", "derive"):
+            live.add(tgt)
+        elif op == "movector":
+            live.add(tgt)
+            live.discard(srcs[0])
+        elif op == "moveassign":
+            live.discard(srcs[0])
+        elif op == "destroy":
+            live.discard(tgt)
+    return out[:nsteps]
+
+
 def nt_hist(c):
     """non-trivial: a mutation or release happens after a sharing step"""
     shared = False
@@ -380,6 +453,11 @@ def check_C11(tier, seed, res, replay=None):
     n_ta, n_fa, steps = (6000, 2000, 60) if tier == "thorough" else (1200, 400, 40)
     for i in range(n_ta):
         c = gen_ta_history(rng, rng.randint(steps // 2, steps))
+        if i % 3 == 2:
+            # scripted storage-sharing opening + the tail of a random history restricted to steps that are valid afterwards
+            opening = ta_sharing_opening(rng)
+            live_after = {0, 1} | ({2} if any(s[0] == "copyctor" and s[1] == 2 for s in opening) else set())
+            c = {"op": "hist", "kind": "ta", "sym": "names", "steps": opening + continuation(rng, live_after, steps // 2)}
         c["id"] = ["ta", i]
         cases.append(c)
     for i in range(n_fa):
